@@ -4,6 +4,9 @@ ID=$1; CK=${2:-$1}
 SUF=${SEEDSUFFIX:-}; P=${SEEDROOT:-/tmp/wt}/$ID.out/patch.diff; [ -f $P ] || P=/verif/seeded/$ID$SUF/patch.diff
 if [ -n "$(git -C /repo status --porcelain)" ]; then echo "refusing: /repo has uncommitted changes"; exit 2; fi
 git -C /repo apply $P || exit 2
+cp /verif/evidence/$CK.json /tmp/evidence_keep_$CK.json 2>/dev/null
 cd /verif && ./check $CK > /tmp/det_$ID$SUF.log 2>&1; rc=$?
 git -C /repo apply -R $P
+# the evidence file belongs to the unchanged tree: put back the one written before the change was applied
+cp /tmp/evidence_keep_$CK.json /verif/evidence/$CK.json 2>/dev/null
 echo "$ID (check $CK) rc=$rc"; grep "VIOLATION\|^$CK:" /tmp/det_$ID$SUF.log | cut -c1-330
